@@ -255,3 +255,20 @@ package kgo
 //@ func (*RecordReader) parseReadSize$14(b []byte, _ *Record) (err error)
 //@   prop C20
 //@   site call ParseUint#0 assert [unsigned-base-16] arg1 == 16 && arg2 == 64
+
+// ascii / number sizes and numbers: the reader keeps taking bytes exactly while they are the ten decimal digits
+// '0'..'9' (2 = more may follow and EOF after it is fine; -1 = this byte ends the number).
+//@ func (*RecordReader) parseReadSize$1(b byte) (more int8)
+//@   prop C20
+//@   nopanic
+//@   pure
+//@   ensures [all-ten-digits-continue-the-number] ((48 <= b && b <= 57) ==> more == 2) && (!(48 <= b && b <= 57) ==> more == -1)
+
+// readExact (literal text of the layout): a failed read - in particular a clean io.EOF at the end of the stream in
+// front of a layout that begins with literal text - is reported as it is; the comparison happens only after a
+// successful read of exactly len(d) bytes.
+//@ func (r *RecordReader) readExact(d []byte) (err error)
+//@   prop C20
+//@   site call Equal#0 assert [compared-only-after-a-successful-read] reached($readSize0) && $readSize0 == nil
+//@   ensures [read-error-reported-as-it-is] (reached($readSize0) && $readSize0 != nil) ==> err == $readSize0
+//@   ensures [always-reads-first] reached($readSize0)
